@@ -41,6 +41,24 @@ MUTANTS = [
     M("c03.1-load-2", "C03", "C03.1", CMF, "count.eq(txxd - 1),", "count.eq(txxd - 2),"),
     M("c03.1-term-2", "C03", "C03.1", CMF, "If(count == 1,\n                        ready.eq(1)", "If(count == 2,\n                        ready.eq(1)"),
     B("c03.1-twin", "C03", CMF, "count.eq(txxd - 1),", "count.eq(-1 + txxd),"),
+    M("c03.1-sep-stmt", "C03", "C03.1", CMF, """                ).Elif(~ready,
+                    count.eq(count - 1),
+                    If(count == 1,
+                        ready.eq(1)
+                    )
+                )
+""", """                ).Elif(~ready,
+                    count.eq(count - 1),
+                )
+            self.sync += If(~ready & (count == 1), ready.eq(1))
+"""),
+    B("c03.1-twin-valueform", "C03", CMF, """                    If((txxd - 1) == 0,
+                        ready.eq(1)
+                    ).Else(
+                        ready.eq(0)
+                    )
+""", """                    ready.eq((txxd - 1) == 0),
+"""),
     M("c03.1-faw5", "C03", "C03.1", CMF, "If(count < 4,", "If(count < 5,"),
     M("c03.2-refresh-notras", "C03", "C03.2", BMF, "If(twtpcon.ready & trascon.ready,\n                refresh_gnt.eq(1),", "If(twtpcon.ready,\n                refresh_gnt.eq(1),"),
     M("c03.2-ap-notras", "C03", "C03.2", BMF, 'fsm.act("AUTOPRECHARGE",\n            If(twtpcon.ready & trascon.ready,', 'fsm.act("AUTOPRECHARGE",\n            If(twtpcon.ready,'),
@@ -125,6 +143,22 @@ MUTANTS = [
     M("c04.3-refresh-late", "C04", "C04.3", BMF, 'If(refresh_req,\n                NextState("REFRESH")\n            ).Elif(cmd_buffer.source.valid,', 'If(refresh_req & ~cmd_buffer.source.valid,\n                NextState("REFRESH")\n            ).Elif(cmd_buffer.source.valid,'),
     M("c04.3-mux-order", "C04", "C04.3", MXF, '            If(go_to_refresh,\n                NextState("REFRESH")\n            )\n        )\n        fsm.act("WRITE",', '        )\n        fsm.act("WRITE",'),
     M("c04.5-zqcs-pulse", "C04", "C04.5", RFF, "            self.sync += [\n                If(zqcs_executer.start, wants_zqcs.eq(0)),\n                If(zqcs_timer.done,     wants_zqcs.eq(1)),\n            ]", "            self.comb += wants_zqcs.eq(zqcs_timer.done)"),
+    M("c04.7-zqcs-exit-keeps-valid", "C04", "C04.7", RFF, """                If(zqcs_executer.done,
+                    cmd.valid.eq(0),
+                    cmd.last.eq(1),""", """                If(zqcs_executer.done,
+                    cmd.last.eq(1),"""),
+    M("c04.7-refresh-exit-keeps-valid", "C04", "C04.7", RFF, """                    ).Else(
+                        cmd.valid.eq(0),
+                        cmd.last.eq(1),""", """                    ).Else(
+                        cmd.last.eq(1),"""),
+    M("c04.8-zqcs-defaults", "C04", "C04.8", RFF, """            # Note: Don't set cmd to 0 since already done in RefreshExecuter
+            self.done.eq(0),""", """            cmd.a.eq(0), cmd.ba.eq(0), cmd.cas.eq(0), cmd.ras.eq(0), cmd.we.eq(0),
+            self.done.eq(0),"""),
+    B("c04.7-twin-order", "C04", RFF, """                If(zqcs_executer.done,
+                    cmd.valid.eq(0),
+                    cmd.last.eq(1),""", """                If(zqcs_executer.done,
+                    cmd.last.eq(1),
+                    cmd.valid.eq(0),"""),
     B("c04-twin-wait", "C04", RFF, "self.comb += timer.wait.eq(~timer.done)", "self.comb += timer.wait.eq(timer.done == 0)"),
     # ---- C01 ----
     M("c01.1-rowhit-lookahead", "C01", "C01.1", BMF, "self.comb += row_hit.eq(row == slicer.row(cmd_buffer.source.addr))", "self.comb += row_hit.eq(row == slicer.row(cmd_buffer_lookahead.source.addr))"),
